@@ -86,6 +86,18 @@ func (d *Dependency) interpolate(properties map[string]string) bool {
 	ok5 := d.Type.interpolate(properties)
 	ok6 := d.Classifier.interpolate(properties)
 	ok7 := d.Optional.interpolate(properties)
+	// An exclusion that cannot be resolved is kept as it is written:
+	// it then excludes nothing. The slice may be shared with the project
+	// the dependency was merged from, so work on a copy.
+	if len(d.Exclusions) > 0 {
+		exclusions := make([]Exclusion, len(d.Exclusions))
+		copy(exclusions, d.Exclusions)
+		for i := range exclusions {
+			exclusions[i].GroupID.interpolate(properties)
+			exclusions[i].ArtifactID.interpolate(properties)
+		}
+		d.Exclusions = exclusions
+	}
 	return ok1 && ok2 && ok3 && ok4 && ok5 && ok6 && ok7
 }
 
